@@ -175,7 +175,11 @@ func (c *ShipConnection) CloseConnection(safe bool, code int, reason string) {
 				},
 			}
 
-			_ = c.sendShipModel(model.MsgTypeEnd, closeMessage)
+			// do not use sendShipModel here: it closes the connection if the
+			// data connection is already closed, which would re-enter shutdownOnce
+			if shipMsg, err := c.shipMessageData(model.MsgTypeEnd, closeMessage); err == nil {
+				_ = c.dataWriter.WriteMessageToWebsocketConnection(shipMsg)
+			}
 
 			go func() {
 				// wait a bit to let it send
@@ -404,6 +408,11 @@ func (c *ShipConnection) shipMessage(typ byte, model interface{}) ([]byte, error
 		return nil, err
 	}
 
+	return c.shipMessageData(typ, model)
+}
+
+// transform a SHIP model into EEBUS specific JSON without checking the data connection
+func (c *ShipConnection) shipMessageData(typ byte, model interface{}) ([]byte, error) {
 	if model == nil {
 		return nil, errors.New("invalid data")
 	}
